@@ -10,6 +10,25 @@ def norm(e):
     return (min(e), max(e))
 
 
+def dec(t):
+    """topology names are arbitrary objects for the conversion: strings, but also ints or tuples (JSON-safe encoding)"""
+    if isinstance(t, str) and t.startswith("#int:"):
+        return int(t[5:])
+    if isinstance(t, str) and t.startswith("#tuple:"):
+        return tuple(json.loads(t[7:]))
+    return t
+
+
+def enc(t):
+    if isinstance(t, bool) or t is None:
+        return t
+    if isinstance(t, int):
+        return f"#int:{t}"
+    if isinstance(t, tuple):
+        return "#tuple:" + json.dumps(list(t))
+    return t
+
+
 class C04(Prop):
     pid = "C04"
     rule = ("edge lists produced by the real fast generator on random handshake-consistent sequences (70%) and hand-built ones with "
@@ -44,6 +63,10 @@ class C04(Prop):
                 edges.append([u, v])
                 tops.append(rng.choice(["a", "b", "2-clique"]))
                 ids.append(m if rng.random() < 0.8 else rng.randint(0, 3))
+        if rng.random() < 0.3:
+            # names that are not strings (motif sizes as ints, (size, colour) tuples): carried through unchanged, never stringified
+            ren = {"a": "#int:2", "b": "#tuple:[3, 1]", "2-clique": "#int:3"}
+            tops = [ren[t] for t in tops]
         return {"edges": edges, "topologies": tops, "motif_id": ids, "jds": jds, "source": "hand"}
 
     # ---- real code
@@ -52,7 +75,7 @@ class C04(Prop):
         return {"nodes": list(G.nodes()),
                 "jd": {str(n): (list(G.nodes[n][NN.JOINT_DEGREE]) if NN.JOINT_DEGREE in G.nodes[n] else None)
                        for n in G.nodes()},
-                "edges": sorted([list(norm(e)), G.edges[e].get(NN.TOPOLOGY), G.edges[e].get(NN.MOTIF_IDS)]
+                "edges": sorted([list(norm(e)), enc(G.edges[e].get(NN.TOPOLOGY)), G.edges[e].get(NN.MOTIF_IDS)]
                                 for e in G.edges()),
                 "extra_node_attrs": sorted({k.name if hasattr(k, "name") else str(k) for n in G.nodes() for k in G.nodes[n]}),
                 }
@@ -63,16 +86,16 @@ class C04(Prop):
         from gcmpy.network.network_to_edge_list import NetworkToEdgeList
         el = LightWeightEdgeList()
         el.edge_list = [tuple(e) for e in case["edges"]]
-        el.topologies = list(case["topologies"])
+        el.topologies = [dec(t) for t in case["topologies"]]
         el.motif_id = list(case["motif_id"])
         el.joint_degrees = [tuple(r) for r in case["jds"]]
         net = EdgeListToNetwork.convert(el)
         obs = {"net": self._observe_net(net.G)}
-        obs["input_untouched"] = (el.edge_list == [tuple(e) for e in case["edges"]] and el.topologies == case["topologies"]
+        obs["input_untouched"] = (el.edge_list == [tuple(e) for e in case["edges"]] and el.topologies == [dec(t) for t in case["topologies"]]
                                   and el.motif_id == case["motif_id"] and el.joint_degrees == [tuple(r) for r in case["jds"]])
         try:
             back = NetworkToEdgeList.convert(net)
-            obs["back"] = {"edges": [list(e) for e in back.edge_list], "topologies": list(back.topologies),
+            obs["back"] = {"edges": [list(e) for e in back.edge_list], "topologies": [enc(t) for t in back.topologies],
                            "motif_id": list(back.motif_id), "jds": [list(r) for r in back.joint_degrees]}
             again = EdgeListToNetwork.convert(back)
             obs["again"] = self._observe_net(again.G)
